@@ -367,6 +367,17 @@ fn size_strategy() -> BoxedStrategy<SizeCase> {
                 2 => Just((0i32, 0i32)),
                 1 => (-200i32..200, -200i32..200),
                 1 => (any::<i16>(), any::<i16>()).prop_map(|(a, b)| (a as i32 * 8, b as i32 * 8)),
+                // at the ends of the coordinate space (the exclusive far corner must still fit into i32)
+                1 => (0u8..4, 0i32..40, 0i32..40).prop_map(move |(corner, dx, dy)| {
+                    let fx = i32::MAX - w.max(1) as i32 - dx;
+                    let fy = i32::MAX - h.max(1) as i32 - dy;
+                    match corner {
+                        0 => (i32::MIN + dx, i32::MIN + dy),
+                        1 => (fx, i32::MIN + dy),
+                        2 => (i32::MIN + dx, fy),
+                        _ => (fx, fy),
+                    }
+                }),
             ];
             (Just(w), Just(h), Just(colour), origin)
         })
@@ -505,6 +516,21 @@ pub fn run(ctx: &Ctx) -> Report {
         for (i, origin) in [(5, 7), (-3, 0), (0, -9), (-40, -33), (1000, -2000), (-1, 1)].into_iter().enumerate() {
             for (w, h) in [(32, 32), (33, 47), (64, 40), (40 + i as u32, 90), (0, 5), (7, 7), (128, 128)] {
                 cases.push(SizeCase { w, h, colour, origin });
+            }
+        }
+    }
+    // targets at the ends of the coordinate space: every bounding box whose exclusive far corner fits
+    // into i32 (embedded-graphics iterates rectangles through half-open i32 ranges, so it cannot itself
+    // address a column or row at i32::MAX)
+    for colour in [ColourType::Rgb565, ColourType::Rgb888] {
+        for (w, h) in [(0u32, 0u32), (1, 1), (3, 3), (5, 5), (10, 10), (64, 10), (10, 64), (18, 19), (24, 25), (26, 31), (31, 26), (32, 32), (40, 33), (64, 64)] {
+            let far = |n: u32, back: i32| i32::MAX - n.max(1) as i32 - back;
+            for ox in [i32::MIN, i32::MIN + 3, far(w, 0), far(w, 7), 0] {
+                for oy in [i32::MIN, i32::MIN + 4, far(h, 0), far(h, 9), 0] {
+                    if (ox, oy) != (0, 0) {
+                        cases.push(SizeCase { w, h, colour, origin: (ox, oy) });
+                    }
+                }
             }
         }
     }
